@@ -57,6 +57,9 @@ def cases(tier, rng):
             yield {'k': 'blake2', 'size': size, 'n': n, 'pc': 'default', 'pat': 'rand', 'single': n % 4 == 0}
         for ol in range(1, omax + 1):
             yield {'k': 'blake2', 'size': size, 'n': [0, 3, B, B + 1][ol % 4], 'pc': 'outlen', 'outlen': ol, 'pat': 'rand', 'single': ol % 7 == 0}
+        for pc in ('short-pers', 'short-salt', 'short-pers+salt'):
+            for ln in range(1, (16 if size == 512 else 8)):
+                yield {'k': 'blake2', 'size': size, 'n': [0, 70, 200][ln % 3], 'pc': pc, 'v': str(ln), 'pat': 'rand', 'single': False}
         for pc in ('salt', 'pers', 'salt+pers', 'fanout', 'depth', 'leafl', 'noffset', 'ndepth', 'inner', 'tree-all', 'key'):
             for v in ('0', '1', 'max', 'rand', 'rand'):
                 for n in (0, 1, B, 2 * B + 5):
@@ -133,6 +136,12 @@ def b2params(rng, case, size):
         return {'0': bytes(n), '1': b'\x01' + bytes(n - 1), 'max': b'\xff' * n}.get(v) if v in ('0', '1', 'max') else rng.randbytes(n)
     if pc == 'outlen':
         ck['outlen'] = hk['digest_size'] = case['outlen']
+    if pc == 'short-pers':
+        ck['pers'] = hk['person'] = rng.randbytes(int(v))
+    if pc == 'short-salt':
+        ck['salt'] = hk['salt'] = rng.randbytes(int(v))
+    if pc == 'short-pers+salt':
+        ck['salt'] = hk['salt'] = rng.randbytes(l); ck['pers'] = hk['person'] = rng.randbytes(int(v))
     if pc in ('salt', 'salt+pers'):
         ck['salt'] = hk['salt'] = bts(l)
     if pc in ('pers', 'salt+pers'):
